@@ -19,11 +19,9 @@ import (
 	"bytes"
 	crand "crypto/rand"
 	"encoding/base64"
-	"encoding/hex"
 	"encoding/json"
 	"errors"
 	"fmt"
-	"io"
 	"os"
 	"strings"
 	"time"
@@ -824,144 +822,6 @@ func runCase(res *lib.Result, drv *lib.Drv, real bool, c Case, idx int) {
 	}
 }
 
-// ---- small-scale loop tie with a toy AEAD (same functions as Kit.Enc.Drv.toySeal/toyOpen) ----
-
-func toyTag(key int, p []byte, i uint32, last bool) byte {
-	s := 0
-	for _, b := range p {
-		s += int(b)
-	}
-	l := 0
-	if last {
-		l = 7
-	}
-	return byte((s + 31*int(i) + l + key) % 256)
-}
-
-func toySealSeg(key int, p []byte, i uint32, last bool) []byte {
-	out := make([]byte, 0, len(p)+1)
-	pad := byte((key + int(i)) % 256)
-	for _, b := range p {
-		out = append(out, b^pad)
-	}
-	return append(out, toyTag(key, p, i, last))
-}
-
-type toyCase struct {
-	Kind   string      `json:"kind"` // toy
-	Seg    int         `json:"seg"`
-	Len    int         `json:"len"`
-	Mut    string      `json:"mutation"`
-	Doc    string      `json:"doc_hex"`
-	Script encx.Script `json:"script"`
-}
-
-func runToy(c toyCase) string {
-	sc := c.Script
-	sc.Data, _ = hex.DecodeString(c.Doc)
-	const key = 5
-	ncalls := 0
-	fn := func(out io.Writer, d []byte, i uint32, last bool) error {
-		ncalls++
-		if len(d) == 0 {
-			return errors.New("input ciphertext is empty")
-		}
-		body := d[:len(d)-1]
-		pad := byte((key + int(i)) % 256)
-		p := make([]byte, len(body))
-		for j, b := range body {
-			p[j] = b ^ pad
-		}
-		if d[len(d)-1] != toyTag(key, p, i, last) {
-			return enc.ErrDecryptionFailed
-		}
-		_, err := out.Write(p)
-		return err
-	}
-	var out []byte
-	var terr error
-	var src *encx.ScriptReader
-	gerr := encx.Guard(20*time.Second, func() error {
-		src = sc.Reader()
-		r := enc.VerifProcessSegments(src, c.Seg+1, fn)
-		out, terr = encx.Drain(r, nil)
-		return nil
-	})
-	if gerr != nil {
-		return "term=" + encx.Canon(gerr)
-	}
-	return fmt.Sprintf("out=%s ncalls=%d term=%s", hex.EncodeToString(out), ncalls, encx.CanonSrc(terr, sc, src))
-}
-
-func genToy(tier string, rng *lib.Rand) []toyCase {
-	var cases []toyCase
-	const key = 5
-	for _, seg := range []int{1, 2, 3} {
-		for n := 0; n <= 3*seg+1; n++ {
-			p := make([]byte, n)
-			for i := range p {
-				p[i] = byte(17*i + 3)
-			}
-			var segs [][]byte
-			for i := 0; i*seg < n; i++ {
-				e := (i + 1) * seg
-				if e > n {
-					e = n
-				}
-				segs = append(segs, toySealSeg(key, p[i*seg:e], uint32(i), e == n))
-			}
-			join := func(ss [][]byte) []byte { return bytes.Join(ss, nil) }
-			doc := join(segs)
-			add := func(mut string, d []byte) {
-				scripts := []encx.Script{{}, {Caps: []int{1, 1, 1, 1, 1, 1, 1, 1, 1, 1, 1, 1, 1, 1, 1, 1}, EWD: true}, {Caps: []int{seg + 1, 0, seg + 2}}, encx.RandomScript(rng, len(d), seg+1)}
-				for _, sc := range scripts {
-					sc.Term = "eof"
-					cases = append(cases, toyCase{"toy", seg, n, mut, hex.EncodeToString(d), sc})
-					// a failing source: the error value rotates through the palette
-					sc.Term = []string{"failOnce", "failSticky"}[len(cases)%2]
-					sc.Err = encx.ErrKinds[(len(cases)/2)%len(encx.ErrKinds)]
-					cases = append(cases, toyCase{"toy", seg, n, mut, hex.EncodeToString(d), sc})
-				}
-			}
-			add("none", doc)
-			for cut := 0; cut < len(doc); cut++ {
-				add(fmt.Sprintf("trunc@%d", cut), doc[:cut])
-			}
-			for pos := 0; pos < len(doc); pos++ {
-				d := append([]byte(nil), doc...)
-				d[pos] ^= 1 << uint(pos%8)
-				add(fmt.Sprintf("flip@%d", pos), d)
-			}
-			for i := range segs {
-				var del, dup [][]byte
-				for j, s := range segs {
-					if j != i {
-						del = append(del, s)
-					}
-					dup = append(dup, s)
-					if j == i {
-						dup = append(dup, s)
-					}
-				}
-				add(fmt.Sprintf("segdel@%d", i), join(del))
-				add(fmt.Sprintf("segdup@%d", i), join(dup))
-				for j := i + 1; j < len(segs); j++ {
-					sw := append([][]byte(nil), segs...)
-					sw[i], sw[j] = sw[j], sw[i]
-					add(fmt.Sprintf("segswap@%d,%d", i, j), join(sw))
-				}
-			}
-			add("append-byte", append(append([]byte(nil), doc...), 9))
-			if len(segs) > 0 {
-				add("append-last", append(append([]byte(nil), doc...), segs[len(segs)-1]...))
-				// a correctly sealed extra non-final / final segment at the next index
-				add("append-sealed-final", append(append([]byte(nil), doc...), toySealSeg(key, []byte{1}, uint32(len(segs)), true)...))
-			}
-		}
-	}
-	return cases
-}
-
 func main() {
 	f := lib.ParseFlags()
 	encx.Supervise(f.Out, rule, func() { run(f) })
@@ -1001,18 +861,7 @@ func run(f lib.Flags) {
 		}
 		json.Unmarshal(rf.Case, &kind)
 		if kind.Kind == "toy" {
-			var c toyCase
-			json.Unmarshal(rf.Case, &c)
-			impl := runToy(c)
-			res.Count(c.Doc, true)
-			res.Note("replay impl: " + impl)
-			if drv != nil {
-				a, _ := drv.Ask(toyLine(c))
-				res.Note("replay model: " + a)
-				if a != impl {
-					res.Disagree("processSegments(real, toy AEAD) = Kit.Enc.processSegments", c, a, impl)
-				}
-			}
+			encx.RunLoop("c02", f, res)
 		} else {
 			var c Case
 			if err := json.Unmarshal(rf.Case, &c); err != nil {
@@ -1025,55 +874,12 @@ func run(f lib.Flags) {
 		return
 	}
 
-	// small-scale loop tie
-	toys := genToy(f.Tier, rng.Fork())
-	var lines []string
-	for _, c := range toys {
-		lines = append(lines, toyLine(c))
-	}
-	var answers []string
-	if drv != nil {
-		answers, err = drv.AskBatch(lines)
-		if err != nil {
-			res.Disagree("driver-alive", "toy batch", err.Error(), "")
-			answers = nil
-		}
-	}
-	for i, c := range toys {
-		if i%16 == 0 {
-			encx.Inflight(c)
-		}
-		impl := runToy(c)
-		res.Count(lines[i], c.Mut != "none" || c.Script.Term != "eof")
-		if c.Script.Fails() && encx.KV(impl)["term"] == "ok" {
-			k := c.Script.Err
-			if k == "" {
-				k = "custom"
-			}
-			res.Violate("loop-source-error-lost:"+k, fmt.Sprintf("processSegments: the source failed with %q but the pipe was closed cleanly", encx.SourceErr(c.Script.Err).Error()), c)
-		}
-		res.Hit("toy." + strings.SplitN(c.Mut, "@", 2)[0])
-		res.Hit("toy.term=" + encx.KV(impl)["term"])
-		if i%2999 == 0 {
-			res.Sample(c)
-		}
-		if answers != nil {
-			res.Traces++
-			if answers[i] != impl {
-				res.Disagree("processSegments(real, toy AEAD) = Kit.Enc.processSegments", c, answers[i], impl)
-			}
-		}
-	}
-
+	// small-scale loop tie (separate binary built with the overlay)
+	encx.RunLoop("c02", f, res)
+	rng.Fork()
 	cases := gen(f.Tier, rng.Fork(), f.Search)
 	for i, c := range cases {
 		runCase(res, drv, real, c, i)
 	}
 	res.Write(f.Out)
-}
-
-func toyLine(c toyCase) string {
-	sc := c.Script
-	sc.Data, _ = hex.DecodeString(c.Doc)
-	return fmt.Sprintf("pst dir=open seg=%d key=5 %s", c.Seg, sc.Line("data"))
 }
